@@ -3160,7 +3160,7 @@ class Wallet(object):
         :return int: Number of new UTXO's added
         """
 
-        _, account_id, acckey = self._get_account_defaults('', account_id, key_id)
+        _, account_id, acckey = self._get_account_defaults(None, account_id, key_id)
 
         single_key = None
         if key_id:
@@ -3263,7 +3263,7 @@ class Wallet(object):
                                 block_height = utxo['block_height']
                             new_tx = DbTransaction(
                                 wallet_id=self.wallet_id, txid=bytes.fromhex(utxo['txid']), status=status,
-                                is_complete=False, block_height=block_height, account_id=account_id,
+                                is_complete=False, block_height=block_height, account_id=key.account_id,
                                 confirmations=utxo['confirmations'], network_name=network)
                             self.session.add(new_tx)
                             # TODO: Get unique id before inserting to increase performance for large utxo-sets
